@@ -279,6 +279,16 @@ pub fn g3_commands(prop: &str, cols: usize, rows: usize) -> Vec<String> {
                 }
             }
         }
+        "C17" => {
+            for c in ["\x1b8X", "\x1b[uX", "\x1b[?1048lX", "\x1b8\x1b[1;1HY\x1b[99;99HZZ", "\x1b7\x1b[2;2H\x1b8X", "\x1b[?1049h\x1b8X", "\x1b[?1049lX", "\x1b[!p\x1b8X"] {
+                v.push(c.to_string());
+            }
+        }
+        "C18" => {
+            for c in ["\r\t.", "\r\t\t\t.", "\x1b[99G\x1b[Z.", "\x1b[99G\x1b[3Z.", "\x1bH\r\t.", "\x1b[g\r\t\t.", "\r\x1b[2I.", "\x1b[3g\r\t."] {
+                v.push(c.to_string());
+            }
+        }
         "C07" => {
             with(&mut v, "X@P", cols);
             for c in ["\x1b[J", "\x1b[0J", "\x1b[1J", "\x1b[2J", "\x1b[3J", "\x1b[K", "\x1b[0K", "\x1b[1K", "\x1b[2K", "\x1b#8"] {
@@ -288,4 +298,85 @@ pub fn g3_commands(prop: &str, cols: usize, rows: usize) -> Vec<String> {
         _ => {}
     }
     v
+}
+
+// ---------------------------------------------------------------------------------------------
+// G3s: scenarios across screen switches and resizes, then one command of the property
+
+pub struct Scenario {
+    pub cols: usize,
+    pub rows: usize,
+    pub commands: Vec<String>,
+}
+
+impl Scenario {
+    const PRE: usize = 2;
+    const ENTER: usize = 3;
+    const RESIZE: usize = 4;
+    const STBM: usize = 3;
+    const ORIGIN: usize = 2;
+    const LEAVE: usize = 3;
+
+    pub fn count(&self) -> usize {
+        Self::PRE * Self::ENTER * Self::RESIZE * Self::STBM * Self::ORIGIN * Self::LEAVE * Self::RESIZE * self.commands.len()
+    }
+
+    fn resize(&self, k: usize, c: usize, r: usize) -> Option<(usize, usize)> {
+        match k {
+            0 => None,
+            1 => Some((c, r + 2)),
+            2 => Some((c + 3, r)),
+            _ => Some((c.saturating_sub(1).max(1), r.saturating_sub(1).max(1))),
+        }
+    }
+
+    pub fn history(&self, mut i: usize) -> History {
+        let mut take = |n: usize| {
+            let v = i % n;
+            i /= n;
+            v
+        };
+        let cmd = self.commands[take(self.commands.len())].clone();
+        let rs2 = take(Self::RESIZE);
+        let leave = take(Self::LEAVE);
+        let origin = take(Self::ORIGIN);
+        let stbm = take(Self::STBM);
+        let rs1 = take(Self::RESIZE);
+        let enter = take(Self::ENTER);
+        let pre = take(Self::PRE);
+        let mut h = History::new(self.cols, self.rows, None);
+        let (mut c, mut r) = (self.cols, self.rows);
+        let mut s = String::new();
+        if pre == 1 {
+            for k in 0..r + 2 {
+                s.push_str(&format!("line{}", k));
+                s.push_str(if k % 3 == 2 { "xxxxxxxxxxxx\r\n" } else { "\r\n" });
+            }
+            s.push_str("\x1b[2;3H\x1b7\x1bH");
+        }
+        s.push_str(["", "\x1b[?1047h", "\x1b[?1049h"][enter]);
+        h.calls.push(Call::FeedStr(std::mem::take(&mut s)));
+        if let Some((c2, r2)) = self.resize(rs1, c, r) {
+            h.calls.push(Call::Resize(c2, r2));
+            c = c2;
+            r = r2;
+        }
+        match stbm {
+            1 if r >= 3 => s.push_str("\x1b[2;3r"),
+            2 if r >= 2 => s.push_str(&format!("\x1b[1;{}r", r - 1)),
+            _ => {}
+        }
+        if origin == 1 {
+            s.push_str("\x1b[?6h");
+        }
+        s.push_str("\x1b[2;2HQ\x1b7");
+        s.push_str(["", "\x1b[?1047l", "\x1b[?1049l"][leave]);
+        h.calls.push(Call::FeedStr(std::mem::take(&mut s)));
+        if let Some((c2, r2)) = self.resize(rs2, c, r) {
+            h.calls.push(Call::Resize(c2, r2));
+        }
+        h.calls.push(Call::FeedStr(cmd));
+        h.calls.push(Call::FeedStr("\n\n\n\n\n\n\n\x1bM\x1bM\x1bM\x1bM\x1bM\x1bM\x1bM".into()));
+        h
+    }
 }
